@@ -331,6 +331,15 @@ func runC24(c *Ctx) []Obligation {
 			Assume: []Lit{F(`^` + kP + `GetApplication\(k, ctx, (var:)?msg\.Address\)#1$`)}, Target: CallTo(`BeginUnstakingApplication\(`),
 			Why: "unknown applications cannot unstake"},
 	})...)
+	// a pending return is never cancelled or overwritten: a stake message for a record that is unstaking is refused
+	out = append(out, c.Rows([]Row{
+		{Prop: P, ID: "unstaking.node-stake-message-refused", Fn: fnValStaking,
+			Assume: []Lit{T(aValFound), F(`^\(x/nodes/types\.Validator\)\.IsStaked\(` + curVal + `\)$`), F(`^\(x/nodes/types\.Validator\)\.IsUnstaked\(` + curVal + `\)$`)},
+			Target: Success(), Why: "a node that is unstaking cannot be staked again before its stake was returned"},
+		{Prop: P, ID: "unstaking.app-stake-message-refused", Fn: "(x/apps/keeper.Keeper).ValidateApplicationStaking",
+			Assume: []Lit{T(`^` + kP + `GetApplication\(k, ctx, application\.Address\)#1$`), F(`^\(x/apps/types\.Application\)\.IsStaked\(` + kP + `GetApplication\(k, ctx, application\.Address\)#0\)$`), F(`^\(x/apps/types\.Application\)\.IsUnstaked\(` + kP + `GetApplication\(k, ctx, application\.Address\)#0\)$`)},
+			Target: Success(), Why: "an application that is unstaking cannot be staked again before its stake was returned"},
+	})...)
 	// "when due": the sweeps run at the end of every block, unconditionally
 	out = append(out, c.hookRowsEnd(P)...)
 	return out
